@@ -270,6 +270,21 @@ def run_case(ctx, case, rec, d):
                 rec.cls('integer-typed-photometry')
                 if not _eq_exact(r_float, r_int):
                     rec.violation('integer-photometry|differs-from-float', sub0, {'problem': 'the same whole numbers give another fit when passed as ints', 'float_av': r_float[0], 'int_av': r_int[0]})
+            # ---- (a''') the flag column handed over with another integer type (an unsigned byte is what a FITS 'B' column gives):
+            # the flags mean the same whatever integer type carries them
+            if ps == 0 and n >= 2:
+                r_i64 = _by_name(fit(fv, fl, er), names)
+                rec.trans()
+                for dt_ in (np.uint8, np.int16):
+                    s_dt = fc.make_source(fv, fl, er)
+                    s_dt.valid = np.array(fv, dtype=dt_)
+                    r_dt = _by_name(fitter.fit(s_dt), names)
+                    rec.trans()
+                    rec.ev(len(names))
+                    rec.cls('flags-as-' + np.dtype(dt_).name)
+                    if not _eq_exact(r_i64, r_dt):
+                        rec.violation('flag-dtype|differs-from-int64', dict(sub0, dtype=np.dtype(dt_).name),
+                                      {'problem': 'the same flags give another fit when the flag array has dtype %s' % np.dtype(dt_).name, 'int64_chi2': r_i64[2], 'other_chi2': r_dt[2]})
             # ---- (b) limits
             lim = [j for j, v in enumerate(fv) if v in (2, 3)]
             if lim:
